@@ -18,6 +18,8 @@ Others == {[k |-> "nil"], [k |-> "bool"], [k |-> "arr"], [k |-> "str", s |-> "ab
            [k |-> "str", s |-> "99999999999999999999", num |-> "100000000000000000000", den |-> "1"]}
 Operands == {AsInt(t) : t \in IntTexts} \cup {AsStr(t) : t \in IntTexts} \cup {AsFloat(t) : t \in IntTexts}
 EighthOps == {Eighth(n) : n \in (0 - Eighths)..Eighths}
+\* odd integers between 2^52 and 2^53 (x + 0.5 is not representable there), as integer, float and string
+UnExtra == UNION {{AsInt(t), AsStr(t), AsFloat(t)} : t \in {"4503599627370497", "-4503599627370497", "9007199254740991", "-9007199254740991", "4503599627370495"}}
 BinOps == {"plus", "minus", "times", "divided_by", "modulo", "at_least", "at_most"}
 UnOps == {"abs", "ceil", "floor", "round"}
 
@@ -27,7 +29,7 @@ Seeds == {[sd |-> "bin", op |-> op, a |-> a] : op \in BinOps, a \in Operands \cu
 CasesOf(s) ==
   CASE s.sd = "bin"  -> {[sd |-> "case", op |-> s.op, a |-> s.a, b |-> b] : b \in Operands \cup Others}
     [] s.sd = "bin8" -> {[sd |-> "case", op |-> s.op, a |-> s.a, b |-> b] : b \in EighthOps \cup {AsInt("3"), AsStr("-2")}}
-    [] s.sd = "un"   -> {[sd |-> "case", op |-> s.op, a |-> a] : a \in Operands \cup Others \cup EighthOps}
+    [] s.sd = "un"   -> {[sd |-> "case", op |-> s.op, a |-> a] : a \in Operands \cup Others \cup EighthOps \cup UnExtra}
 VARIABLE c
 Init == c \in Seeds
 Next == c.sd # "case" /\ c' \in CasesOf(c)
